@@ -117,6 +117,9 @@ for _k, _v in EXTRA4.items():
 EXTRA5 = {'C01': ' Polygons written from their least vertex with a repeated closing coordinate.', 'C02': ' i64 / i32 predicates on points within two units of a long diagonal (products fit the type) against the i128 determinant.', 'C04': ' unary_union over one-member MultiPolygon items; clip of comb lines with up to 9000 (thorough 70001) coordinates against exact lengths.', 'C05': ' Scales 2^-30, 2^-200, 2^60 and f32 twins at the small scales.', 'C07': ' The deprecated EuclideanDistance impls; polygons with holes inside donut holes; point-point and point-segment forms at 2^520 / 2^-601 (f32 2^64 / 2^-80).', 'C08': ' i64 point sets with extent 2^30 whose candidates differ by a few units in distance from the chord (Bezout construction); thin triangles of exactly three coordinates in every entry point (f64 at 2^27, f32 at 2^12).', 'C09': ' Index variants on translated (2^52; f32 2^23), scaled (2^-600 .. 2^500) and f32 twins, judged against the property on the integer input.', 'C10': ' stitch of nested rings (up to five levels) with the triangle list in every rotation, reversed and interleaved; hand-picked polygons with several kinds of ring contact.', 'C13': ' Similarity maps with factors 2^-60 and 2^-200; the winding of a ring rewritten with a repeated closing coordinate.', 'C15': ' densify of polygons with three interiors, MultiLineString / MultiPolygon position by position; 10^3 .. 10^6 pieces per edge in f64 and f32.', 'C16': ' The deprecated per-function traits as entry points; polar partners (rhumb at the south pole: two known findings); journeys of several circumferences; MultiLineString lengths with degenerate members in every position.', 'C17': ' Members listed twice (mod-2 boundary).', 'C18': ' Rect::split_x / split_y incl. widths that overflow.', 'C19': ' Polygons whose exterior has one coordinate.', 'C20': ' Operations on (p, equal copy of p) against (p, p itself).'}
 for _k, _v in EXTRA5.items():
     EXTRA[_k] = EXTRA.get(_k, "") + _v
+EXTRA6 = {'C01': ' Hosts with two or three holes whose bounding boxes overlap against every point / short line of a 15x15 window; touching rings against every simple 4- to 6-member MultiLineString of a pool with segments crossing at the touch point. Collection-wrapped Multi* with an empty part; line strings with a repeated coordinate.', 'C02': ' The same hosts at every half-step point (coordinate_position / intersects / contains in three wrappings).', 'C03': ' The public triangle_winding_order helper in every ulp window.', 'C04': ' unary_union of the same collections far from the origin (f64 at 2^30, f32 at UTM magnitudes).', 'C05': ' i64 rings at 2^60 and i128 rings at 2^100; MultiPolygon::orient in both directions.', 'C08': ' f32 points of very different magnitude against the exact hull of the f32 values.', 'C10': ' Islands inscribed in holes in the stitch stage.', 'C13': ' One- and two-coordinate line strings and rings in the single-geometry stages.', 'C14': ' MultiPolygon members with a non-finite coordinate next to sound members.', 'C15': ' f32 twins of the ratio forms and of the deprecated form at the clamped ends.', 'C16': ' Line strings of up to 4097 (thorough 65537) coordinates; unit, 1 km and Neptune-sized spheres for nearly coincident points; polar partners off the lattice.'}
+for _k, _v in EXTRA6.items():
+    EXTRA[_k] = EXTRA.get(_k, "") + _v
 EXTRA["C11"] = " Every lattice case is repeated at the exact scales 2^-30 and 2^30 (bit-identical answer after scaling back) and in f32."
 EXTRA["C16"] = " points_along_line against distance / point_at_distance_between of the same metric space; a Neptune-sized HaversineMeasure."
 
